@@ -566,6 +566,12 @@ pub fn profiles(thorough: bool) -> Vec<Profile> {
             size: 9 + d,
         },
         Profile {
+            name: "codata-inplace",
+            menu: Menu { vts: vec![VT::Int], codatas: vec![FUN1], ints: vec![1], vars_per_type: 2, ..base.clone() },
+            roots: vec![ret(VT::Int)],
+            size: 11 + d,
+        },
+        Profile {
             name: "fix",
             menu: Menu { vts: vec![VT::Int, VT::Data(NAT)], datas: vec![NAT], fix: true, ints: vec![1], ..base.clone() },
             roots: vec![ret(VT::Int)],
